@@ -567,6 +567,7 @@ func runC19(c *Ctx, r *Report) {
 	// ---- R19.8 no unexpected exit inside the stream -------------------------
 	r.Rule("R19.8", "no os.Exit site outside the documented keep-list is reachable from stream.Stream (an exit mid-stream skips the temp-file cleanup)")
 	checkExitSites(c, r, "R19.8", true)
+	c19PerFileState(c, r)
 }
 
 func isStringType(t types.Type) bool {
@@ -765,4 +766,49 @@ func exprObjName(info *types.Info, e ast.Expr) string {
 		}
 	}
 	return ""
+}
+
+
+// ---- R19.6b -------------------------------------------------------------------
+// Process-wide state that a command line sets is set by the per-file re-parse.
+func c19PerFileState(c *Ctx, r *Report) {
+	r.Rule("R19.6b", "what the command line sets process-wide is set again for every file: lib.SeedRandom (--seed) and lib.SetTZFromEnv (--tz) are called from the call tree of climain.ParseCommandLine — which in-place mode runs once per file — and from nowhere in pkg/entrypoint, so that each file is processed as the same command would process it alone")
+	parse := c.SSAFunc(c.LookupFunc("pkg/climain", "ParseCommandLine"))
+	if parse == nil {
+		r.Undecided("R19.6b", "ParseCommandLine", "", "anchor not found")
+		return
+	}
+	reach := staticReach(c, parse)
+	for _, name := range []string{"SeedRandom", "SetTZFromEnv"} {
+		target := c.SSAFunc(c.LookupFunc("pkg/lib", name))
+		if target == nil {
+			r.Undecided("R19.6b", name, "", "lib."+name+" not found")
+			continue
+		}
+		var outside []string
+		called := false
+		for _, fn := range c.ModuleFunctions() {
+			for _, b := range fn.Blocks {
+				for _, in := range b.Instrs {
+					call, ok := in.(ssa.CallInstruction)
+					if !ok || call.Common().StaticCallee() != target {
+						continue
+					}
+					if reach[fn] {
+						called = true
+						continue
+					}
+					pk := ""
+					if fn.Pkg != nil {
+						pk = fn.Pkg.Pkg.Path()
+					}
+					if strings.HasSuffix(pk, "/pkg/entrypoint") || strings.HasSuffix(pk, "/cmd/mlr") {
+						outside = append(outside, SSAName(fn)+" at "+c.Rel(in.Pos()))
+					}
+				}
+			}
+		}
+		r.Check(called && len(outside) == 0, "R19.6b", "lib."+name+" is applied by the per-file parse", c.Rel(target.Pos()), "called under ParseCommandLine, not from the entry point",
+			fmt.Sprintf("lib.%s: called under climain.ParseCommandLine=%v; called from the entry point: %v — with -I only the first file would be processed with the setting freshly applied, so later files differ from what the same command prints for them alone", name, called, outside))
+	}
 }
